@@ -23,7 +23,22 @@ func c06Nontrivial(p Program, e *Engine) bool {
 // TestC06 — snapshots are immutable and revert restores exactly the image.
 func TestC06(t *testing.T) {
 	runEngineProperty(t, "C06", "TestC06", func(rt *rapid.T) Program { return GenProgram(rt, c06Cfg) },
-		c06Nontrivial, nil)
+		c06Nontrivial, func(e *Engine) { e.FollowInvalidCandidates = true })
+}
+
+// TestC06Deletion — the same oracle over deletion-heavy programs (marked
+// snapshots on top of retained ones, checkpoints, cleaner-style removals of any
+// candidate the product offers) with reclamation on in most cases.
+var c06DelCfg = GenCfg{
+	MinBlocks: 4, MaxBlocks: 24, MinOps: 8, MaxOps: 50,
+	W: map[string]int{"write": 30, "snap": 24, "remove": 16, "markrm": 9, "setcp": 7, "reopen": 4, "revert": 2, "punch": 1, "read": 2, "lunmap": 1},
+	PunchStart: 70, MaxChainMin: 7, MaxChainMax: 12,
+}
+
+func TestC06Deletion(t *testing.T) {
+	runEngineProperty(t, "C06", "TestC06Deletion", func(rt *rapid.T) Program { return GenProgram(rt, c06DelCfg) },
+		func(p Program, e *Engine) bool { return e != nil && e.Labels["remove:ok"] > 0 && features(p).UserSnaps >= 1 },
+		func(e *Engine) { e.FollowInvalidCandidates = true })
 }
 
 // ---- C10 -------------------------------------------------------------------
